@@ -21,15 +21,16 @@ type c09Attempt struct {
 }
 
 type c09X struct {
-	Half         int // 0 server half (raw driver), 1 client half (real client)
-	TLSMode      int // 0 plaintext, 1 STARTTLS, 2 implicit
-	Insecure     bool
-	AuthBE       bool
-	Attempts     []c09Attempt
-	EhloIdx      []int // step indexes of EHLO commands and the epoch they run in
-	EhloTLS      []bool
-	Markers      []int
-	PreGreetAuth int // step index of an AUTH sent before the greeting (-1 none)
+	Half          int // 0 server half (raw driver), 1 client half (real client)
+	TLSMode       int // 0 plaintext, 1 STARTTLS, 2 implicit
+	Insecure      bool
+	AuthBE        bool
+	Attempts      []c09Attempt
+	EhloIdx       []int // step indexes of EHLO commands and the epoch they run in
+	EhloTLS       []bool
+	Markers       []int
+	PreGreetAuth  int  // step index of an AUTH sent before the greeting (-1 none)
+	FailedUpgrade bool // a STARTTLS whose handshake failed precedes the attempts: still plaintext
 	// client half
 	CliPlan  *ClientSaslPlan
 	SrvSteps []SaslStep
@@ -206,6 +207,16 @@ func genC09(t *Tape, tier string) *Scenario {
 		}
 		x.Attempts = append(x.Attempts, a)
 	}
+	if x.TLSMode == tlsStart && !tlsActive && t.Chance(1, 4) {
+		// STARTTLS is accepted but the handshake fails (the client sends something that
+		// is no ClientHello): the connection goes on in plaintext and must still be
+		// treated as unprotected. The STARTTLS line is sent as a plain step so that the
+		// driver does not start a handshake of its own.
+		x.FailedUpgrade = true
+		steps = append(steps, Step{Kind: kGarbage, Data: []byte("STARTTLS\r\n"), Wait: 1},
+			Step{Kind: kGarbage, Data: []byte("this is no TLS ClientHello at all\r\n"), Wait: 1})
+		ehlo()
+	}
 	natt := 1 + t.Intn(3)
 	for i := 0; i < natt; i++ {
 		attempt()
@@ -214,7 +225,7 @@ func genC09(t *Tape, tier string) *Scenario {
 		}
 		x.Markers = append(x.Markers, len(steps))
 		steps = append(steps, Step{Kind: kMarker, Data: []byte("NOOP\r\n"), Wait: 1})
-		if x.TLSMode == tlsStart && !tlsActive && t.Chance(1, 2) {
+		if x.TLSMode == tlsStart && !tlsActive && !x.FailedUpgrade && t.Chance(1, 2) {
 			steps = append(steps, Step{Kind: kStartTLS, Data: []byte("STARTTLS\r\n"), Wait: 1})
 			tlsActive = true
 			authed = false
@@ -573,6 +584,9 @@ func classifyC09(sc *Scenario, h *History, st *Stats) string {
 	}
 	if h.Conns[0].HandshakeDone {
 		st.Probes["tls_handshake_completed"]++
+	}
+	if x.FailedUpgrade {
+		st.Probes["auth_after_failed_starttls_handshake"]++
 	}
 	return fmt.Sprintf("server|%d|%v|%v|%v|%d|%d", x.TLSMode, x.Insecure, x.AuthBE, o, len(x.SrvSteps), x.PreGreetAuth)
 }
